@@ -23,6 +23,10 @@ CLAIMED = {
  "C07": ("proof", "Deductive: _PhaseTracker/_QubitRef representation invariants and additive update (witnessed modulo 2pi) proved for __setitem__/increment_phase/"
          "update_last_used; _phase_shift shifts exactly the targeted trackers (loop invariant + frame); Sequence._add schedules programmed phase + common reference, starts after "
          "the latest phase shift of its targets, marks targets used and applies the post-phase shift; lemma L-phase-additive lifts single increments to sums of shifts.", "DESIGN.md section 3 C07"),
+ "C08": ("proof", "Deductive (mechanism core only): every Variable update is counted (_assign and _clear add exactly one to the counter and store / clear the value; build returns the "
+         "assigned value or raises), which is what makes a cached ParamObj instance impossible to be stale. The rest of the property - ParamObj cache comparison, the replay loop of "
+         "Sequence.build, template immutability, mappable registers and index targeting - is decided by the bounded stand-in (random templates built three times and compared with direct construction).",
+         "DESIGN.md section 3 C08"),
  "C09": ("proof", "Deductive exceptional postconditions: on every raising path of add_delay / add_pulse / add_target the tracked heap equals the entry heap (exc_safe obligations), "
          "three known findings (multi-step mutators) proved absent outside their witness classes; read-only and replay clauses by the bounded stand-in.", "DESIGN.md section 3 C09"),
  "C12": ("proof", "Deductive (decision logic): validate_register / validate_layout / validate_layout_filling / _validate_atom_number are proved to accept iff every applicable check holds "
@@ -39,13 +43,22 @@ CLAIMED = {
          "Blackman and the Composite sum (loop invariant), Constant/Ramp samples (first/last/within end points; the automatic division-safety obligation finds the duration-1 ramp), "
          "change_duration and scaling of Constant/Ramp, Pulse.__init__ (equal lengths, non-negative amplitude, phases mod 2pi), Pulse.ConstantPulse, is_detuned_delay. "
          "Blackman/Kaiser/Interpolated numerics, from_max_val, finiteness and ArbitraryPhase are decided by the bounded stand-in (durations 1..40 exhaustive).", "DESIGN.md section 3 C16"),
+ "C19": ("proof", "Deductive (core only): _calc_sorting_order passes the rounded columns to lexsort in reverse order for 2-D and 3-D layouts, so the canonical order is x, then y, then z "
+         "(over the numpy axiom that lexsort sorts by its last key first). Order independence, hashes, id <-> coordinate inverse, define_register, build_register order and detuning-map weights "
+         "are decided by the bounded stand-in on generated layouts and shuffled copies.", "DESIGN.md section 3 C19"),
  "C18": ("proof", "Deductive: check_channels_match (the real nested function) returning ('','') under strict=True implies agreement on type, basis, addressing, mod_bandwidth, "
          "fixed_retarget_t, clock_period (and min_retarget_interval when it matters); pure leaf lemmas show which timing leaves (rise time, clock rounding) depend only on those fields, "
          "and which do not (min_duration, custom_phase_jump_time, max_duration, EOM custom_buffer_time: four known findings with witness classes). Timeline equality after the replay, the "
          "non-strict clause and switch_register are decided by the bounded stand-in (switching finished random histories to variant devices).", "DESIGN.md section 3 C18"),
+ "C17": ("other", "Split level. Deductive, all inputs and interleavings: one frame obligation per function of the anchored packages (536 functions: devices, channels, noise model, register, backend, "
+         "json, pulser_simulation) - no store into class-level state, no mutated or stored mutable default argument, no rebinding / in-place mutation of a module-level container - decided exactly "
+         "from the AST of the current tree (found StateRepr sharing n_qudits through the class; repaired). Schema validity, field-by-field round-trips of every listed class, NoiseModel<->SimConfig, "
+         "active noise types and aliasing through shared argument objects are reflective JSON code outside the VC generator's subset: bounded stand-in only (generated objects, interleaved "
+         "constructions / decodings, earlier instances re-observed), labelled bounded and not counted as proved.", "DESIGN.md section 3 C17"),
  "C10": ("proof", "Deductive: phase-jump buffer bound in make_next_pulse_slot; retarget-after-fall, minimum retarget interval and fixed retarget time as invariants preserved by add_target and "
          "all other writers; same-target retarget inserts nothing.", "DESIGN.md section 3 C10"),
 }
+TECH = {"C17": "frame / ownership obligations per function decided from the real AST (deductive part); bounded round-trip and aliasing stand-in on the real tree for the rest (not counted as proved)"}
 NA = {
  "C05": "QuTiP operator algebra over an unbounded tensor power; no contract over ints/reals/sequences expresses it (DESIGN.md section 4)",
  "C11": "outputs of qutip.sesolve/mesolve (floating-point ODE integration); out of reach of contracts (DESIGN.md section 4)",
@@ -60,7 +73,7 @@ for pid, (cat, text, ref) in sorted(CLAIMED.items()):
         "property_id": pid, "quick_cmd": f"./check {pid} --tier quick", "thorough_cmd": f"./check {pid} --tier thorough",
         "evidence_file": f"/verif/evidence/{pid}.json", "replay_cmd_template": f"./check {pid} --replay {{path}}", "engine": "pyvc",
         "level_claimed": {"category": cat, "text": text, "design_ref": ref}, "level_note": NOTE,
-        "technique": "contract-based deductive verification: VCs generated from the real Python AST against sidecar contracts, discharged by z3 (cvc5 cross-check in thorough); bounded concrete stand-in for replay",
+        "technique": TECH.get(pid, "contract-based deductive verification: VCs generated from the real Python AST against sidecar contracts, discharged by z3 (cvc5 cross-check in thorough); bounded concrete stand-in for replay"),
     })
 na = [{"property_id": p, "reason": r} for p, r in NA.items()] + \
      [{"property_id": p, "reason": "not claimed yet: its contracts are not finished in this revision (see DESIGN.md section 8); no check is registered rather than claiming it on a bounded part"} for p in PENDING]
